@@ -3,6 +3,7 @@ package main
 import (
 	"fmt"
 	"go/token"
+	"go/types"
 	"sort"
 	"strings"
 
@@ -315,6 +316,37 @@ func ruleDataMatrixEncoder(c *Ctx) {
 			} else if len(loopSite.Path) > 0 {
 				if v, ok := loopSite.Path[0].(ssa.Value); ok {
 					size = v
+					if _, isTuple := v.Type().(*types.Tuple); isTuple {
+						// the helper hands out the size together with its capacity: the size is the *dmCodeSize
+						// result; an int result that is DataCodewords() of the returned row on every return where a
+						// row is returned stands for size.DataCodewords()
+						size = nil
+						for _, r := range *v.Referrers() {
+							ex, isEx := r.(*ssa.Extract)
+							if !isEx {
+								continue
+							}
+							if namedTypeName(ex.Type()) == "datamatrix.dmCodeSize" {
+								size = ex
+								continue
+							}
+							capOK := isIntType(ex.Type())
+							for _, ret := range returnsOf(F) {
+								if isNilConst(ret.Results[0]) {
+									continue
+								}
+								hn := NewNormer(c.P)
+								hn.NoInline["datamatrix.(*dmCodeSize).DataCodewords"] = true
+								hn.Bind[ret.Results[0]] = "row"
+								if hn.Norm(ret.Results[ex.Index]).String() != "call:datamatrix.(*dmCodeSize).DataCodewords(row)" {
+									capOK = false
+								}
+							}
+							if capOK {
+								n.Bind[ex] = "call:datamatrix.(*dmCodeSize).DataCodewords(size)"
+							}
+						}
+					}
 				}
 				// the helper returns nil when nothing fits
 				nilRet := false
@@ -420,9 +452,25 @@ func ruleDataMatrixEncoder(c *Ctx) {
 				n.Bind[bphi] = "b"
 				c.expectCond(R7, "datamatrix.calcECC/block-loop", bphi.Pos(), n.LoopCond(bh), "b < size.BlockCount")
 				mk, ok := call.Common().Args[1].(*ssa.MakeSlice)
-				c.Check(R7, "datamatrix.calcECC/buffer-fresh-per-block", call.Pos(), ok && inLoopBody(bh, mk.Block()), "buffer made inside the block loop", fmt.Sprintf("%v", ok && inLoopBody(bh, mk.Block())))
+				fresh := ok && inLoopBody(bh, mk.Block())
+				// the block's codewords may be collected by a helper that makes and fills the buffer
+				var gatherFn *ssa.Function
+				var gatherCtx []ssa.CallInstruction
+				if hc, isCall := call.Common().Args[1].(*ssa.Call); isCall && !ok {
+					if g := calleeOf(hc); g != nil && isRepoFunc(g) && g.Blocks != nil && len(returnsOf(g)) == 1 {
+						if m2, isMk := returnsOf(g)[0].Results[0].(*ssa.MakeSlice); isMk {
+							mk, ok = m2, true
+							fresh = inLoopBody(bh, hc.Block())
+							gatherFn, gatherCtx = g, []ssa.CallInstruction{hc}
+							c.Fn(c.P.FuncName(g))
+						}
+					}
+				}
+				c.Check(R7, "datamatrix.calcECC/buffer-fresh-per-block", call.Pos(), fresh, "buffer made inside the block loop", fmt.Sprintf("%v", fresh))
 				if ok {
+					n.Ctx = gatherCtx
 					got := n.Norm(mk.Len).String()
+					n.Ctx = nil
 					c.Check(R7, "datamatrix.calcECC/buffer-len", mk.Pos(), got == "call:datamatrix.(*dmCodeSize).DataCodewordsForBlock(size,b)", "DataCodewordsForBlock(block)", got)
 				}
 				got := n.Norm(call.Common().Args[2]).String()
@@ -433,7 +481,10 @@ func ruleDataMatrixEncoder(c *Ctx) {
 				inner := 0
 				BC := "size.BlockCount"
 				// the codeword slice: the parameter, or the parameter extended by room for the check words
-				isData := func(s string) bool { return s == "data" || strings.HasPrefix(s, "append(data,") }
+				isData := func(s string) bool {
+					// data itself, data extended by room for the check words, or the first len(data) entries of that
+					return s == "data" || strings.HasPrefix(s, "append(data,") || (strings.HasPrefix(s, "slice(append(data,") && strings.HasSuffix(s, ",,len(data))"))
+				}
 				split := func(p Poly) (base, slope Poly) {
 					base, slope = Poly{}, Poly{}
 					for m, cf := range p {
@@ -453,9 +504,9 @@ func ruleDataMatrixEncoder(c *Ctx) {
 					}
 					return
 				}
-				eachInstr(fn, func(b2 *ssa.BasicBlock, ins ssa.Instruction) {
+				scan := func(b2 *ssa.BasicBlock, ins ssa.Instruction) {
 					st, ok := ins.(*ssa.Store)
-					if !ok || !inLoopBody(bh, b2) {
+					if !ok || (b2.Parent() == fn && !inLoopBody(bh, b2)) {
 						return
 					}
 					dst, ok := st.Addr.(*ssa.IndexAddr)
@@ -512,7 +563,13 @@ func ruleDataMatrixEncoder(c *Ctx) {
 						eq3, _ := CondEquivalent(cond, w3)
 						c.Check(R7, "datamatrix.calcECC/scatter-bound", st.Pos(), eq1 || eq2 || eq3, "for every check word of the block", cond.String())
 					}
-				})
+				}
+				eachInstr(fn, scan)
+				if gatherFn != nil {
+					n.Ctx = gatherCtx
+					eachInstr(gatherFn, scan)
+					n.Ctx = nil
+				}
 				c.Check(R7, "datamatrix.calcECC/inner-loops", fn.Pos(), inner == 2, "gather and scatter loops", fmt.Sprint(inner))
 			}
 		}
@@ -543,7 +600,7 @@ func ruleDataMatrixEncoder(c *Ctx) {
 	}
 	if fn := c.theFunc(R7, "datamatrix.(*dmCodeSize).DataCodewordsForBlock"); fn != nil {
 		n := NewNormer(c.P)
-		n.MaxInline = 0
+		n.NoInline["datamatrix.(*dmCodeSize).DataCodewords"] = true // (predicates such as "is the 144x144 symbol" are read through)
 		n.BindParams(fn, "s", "idx")
 		bindCalls(n, c.P, fn, map[string]string{"datamatrix.(*dmCodeSize).DataCodewords": "DC"}, nil)
 		for _, ret := range returnsOf(fn) {
